@@ -410,6 +410,15 @@ func (d *V2) Apply(op model.Op) (res model.Result) {
 			return fail(err)
 		}
 		return model.Result{Desc: v2Desc(out.TableDescription)}
+	case "NativeGet":
+		_ = c.GetNativeInterpreter()
+		return model.Result{}
+	case "NativeSet":
+		c.SetInterpreter(interpreter.NewNativeInterpreter())
+		return model.Result{}
+	case "NativeActivate":
+		c.ActivateNativeInterpreter()
+		return model.Result{}
 	case "ClearTable":
 		if err := v2client.ClearTable(c, op.Table); err != nil {
 			return fail(err)
